@@ -28,6 +28,12 @@ class Diverge(Exception):
     def __init__(self, what, loc):
         self.what, self.loc = what, loc
 
+class BreakExc(Exception):
+    pass
+
+class LoopContinue(Exception):
+    pass
+
 class ReturnExc(Exception):
     def __init__(self, value): self.value = value
 
@@ -244,6 +250,12 @@ class World:
         return x
 
 
+def _contains(t, sub):
+    if t == sub: return True
+    if isinstance(t, tuple):
+        return any(_contains(x, sub) for x in t if isinstance(x, tuple))
+    return False
+
 class Interp:
     """One interpreter instance per (function under analysis, world)."""
     def __init__(self, engine, world, fname, cofactor_sym=None):
@@ -455,6 +467,8 @@ class Interp:
             a, b_ = key[1], key[2]
             if self.shape(b_) is not None and self.shape(a) is None:
                 a, b_ = b_, a
+            if _contains(a, b_):      # never make a super-term the representative of its own sub-term
+                a, b_ = b_, a
             self.W.alias[b_] = a
             self.W.facts.append(lambda b, p=a, q=b_: Iff(self._den_noalias(p, b), self._den_noalias(q, b)))
         return v
@@ -623,7 +637,14 @@ class Interp:
             v = self.ev(c['expr'], env)
             ok = self.match(c['pat'], v, env)
         else:
-            ok = self.truth(self.ev(c, env), c.get('loc'))
+            cv = self.ev(c, env)
+            if getattr(self, 'merge_ifs', False) and isinstance(cv, VBool) and cv.t[0] != 'c' and e['else'] is not None:
+                # symbolic merge of two diagram-valued branches under an opaque host condition (no decision taken)
+                a = self.ev(e['then'], dict(env)); b = self.ev(e['else'], dict(env))
+                if isinstance(a, VBdd) and isinstance(b, VBdd):
+                    return VBdd(('app', 'HOST_ITE', ('b', cv.t), a.term, b.term))
+                raise Undecidable('merge of non-diagram branches', e['loc'])
+            ok = self.truth(cv, c.get('loc'))
         if ok: return self.ev(e['then'], env)
         if e['else'] is not None: return self.ev(e['else'], env)
         return UNIT
@@ -750,7 +771,35 @@ class Interp:
         raise Undecidable('compound assignment', e['loc'])
 
     def ev_Loop(self, e, env):
-        raise Undecidable('loop', e['loc'])
+        """One symbolic iteration from a havoc'd state (only when the function's spec asks for it): variables assigned in the
+        loop body get fresh symbols; the iteration either breaks (execution continues after the loop) or completes, which
+        ends the world with a record of the next state."""
+        if not getattr(self, 'loop_mode', False):
+            raise Undecidable('loop', e['loc'])
+        if getattr(self, 'in_loop', False): raise Undecidable('nested loop', e['loc'])
+        assigned = set()
+        for x in walk(e['body']):
+            if x['k'] in ('Assign', 'AssignOp') and x['lhs']['k'] == 'VarRef': assigned.add(x['lhs']['var'])
+        for v in sorted(assigned):
+            if v in env and isinstance(env[v], VBdd):
+                self.events.append(('loop_init', v, env[v].term))
+                env[v] = VBdd(('p', v.split('#')[0] + '@iter'))
+            elif v in env:
+                raise Undecidable('loop-carried variable %s is not a diagram' % v, e['loc'])
+        self.in_loop = True
+        try:
+            self.ev(e['body'], env)
+        except BreakExc:
+            self.in_loop = False
+            self.events.append(('loop_break',))
+            return UNIT
+        self.in_loop = False
+        self.events.append(('loop_continue', {v: env[v].term for v in assigned if v in env and isinstance(env[v], VBdd)}))
+        raise LoopContinue()
+
+    def ev_Break(self, e, env):
+        if e['value'] is not None: raise Undecidable('break with value', e['loc'])
+        raise BreakExc()
 
     def ev_StaticRef(self, e, env):
         return VOpaque(('static', canon(e['def'])))
